@@ -219,6 +219,30 @@ def r176_setup_once(ctx):
     hs = [e for e in r.events if e.kind == "handler" and e.func == fq]
     cif = [e for e in r.events if e.kind == "call" and e.data.get("callee") == "sklearn.utils.validation.check_is_fitted" and e.func == fq
            and e.data["args"] and e.data["args"][0] is r.self_term]
+    # several call sites (the test regrouped under if / else): the disjunction of their guards must be the documented one
+    fitted_terms = [x for e_ in cs for l_ in pc_literals(e_.pc) for x in subterms(l_)
+                    if x.op == "ite" and x.args[0].op == "exc" and "NotFittedError" in show(x.args[0], maxdepth=2)]
+    if len(cs) > 1 and len(cif) >= 1 and fitted_terms:
+        ft = fitted_terms[0]
+        fitted_when_exc = ft.args[1]     # value of the flag when NotFittedError was raised
+        ok_shape = (fitted_when_exc is FALSE and ft.args[2] is TRUE)
+        want_fn = lambda env: (not env["fitted"]) or env["reinit"]   # noqa: E731
+        okm = ok_shape and _prop_equiv([e_.pc for e_ in cs], want_fn, {"reinit": P["reinitialize"], "fitted": ft}) \
+            and all(arg(e_, 0) is not None and contains(arg(e_, 0), lambda s_: s_ is P["X"]) for e_ in cs)
+        ctx.ob("R17.6", fq, cs[0].node, okm, "__setup runs exactly when not fitted or reinitialize is set (over all its call sites)" if okm else
+               "__setup is guarded by another test: the networks are re-built by a later partial_fit (or never built)", construct="setup guard")
+        st = [e for e in r.events if e.kind == "store" and e.data.get("tkind") == "attr" and e.data["attr"] == "classes_" and e.func == fq]
+        has = mk("call", glob("builtins.hasattr"), (r.self_term, const("classes_")), ())
+        okc = bool(st) and _prop_equiv([e_.pc for e_ in st], lambda env: env["reinit"] or not env["has"],
+                                       {"reinit": P["reinitialize"], "has": has, "fitted": ft})
+        ctx.ob("R17.6", fq, st[0].node if st else None, okc, "classes_ is (re)computed exactly when reinitialize is set or none is "
+               "recorded yet", construct="classes_ guard")
+        Af = Analysis(ctx, no_inline=[VAL])
+        rf = Af.run(CLS + ".fit", cls_ctx=CLS)
+        v = calls_to(rf, VAL)
+        okf = len(v) == 1 and (kw(v[0], "reinitialize") is TRUE or arg(v[0], 3) is TRUE)
+        ctx.ob("R17.6", rf.func, v[0].node if v else None, okf, "fit always re-initialises (reinitialize=True)", construct="fit reinitialises")
+        return
     ok = len(cs) == 1 and len(cif) >= 1
     why = ""
     if ok:
@@ -250,6 +274,44 @@ def r176_setup_once(ctx):
     v = calls_to(rf, VAL)
     okf = len(v) == 1 and (kw(v[0], "reinitialize") is TRUE or arg(v[0], 3) is TRUE)
     ctx.ob("R17.6", rf.func, v[0].node if v else None, okf, "fit always re-initialises (reinitialize=True)", construct="fit reinitialises")
+
+
+def _prop_equiv(pcs, want_fn, atoms: dict) -> bool:
+    """Is the disjunction of the given path conditions equivalent to want_fn over all truth assignments of the atoms?
+    Literals that mention none of the atoms are ignored (they do not separate the call sites); a literal that mixes an atom with
+    something else makes the answer False."""
+    import itertools
+    names = list(atoms)
+
+    def ev(t, env):
+        for nm in names:
+            if t is atoms[nm]:
+                return env[nm]
+        if t.op == "not":
+            v = ev(t.args[0], env)
+            return None if v is None else (not v)
+        if t.op in ("and", "or"):
+            vs = [ev(x, env) for x in t.args[0]]
+            if any(v is None for v in vs):
+                return None
+            return all(vs) if t.op == "and" else any(vs)
+        if t is TRUE:
+            return True
+        if t is FALSE:
+            return False
+        return "free" if not any(contains(t, lambda s_, a_=atoms[nm]: s_ is a_) for nm in names) else None
+    for vals in itertools.product((False, True), repeat=len(names)):
+        env = dict(zip(names, vals))
+        got = False
+        for pc in pcs:
+            vs = [ev(l, env) for l in pc_literals(pc) if l.op not in ("inloop", "exc")]
+            if any(v is None for v in vs):
+                return False
+            if all(v is True or v == "free" for v in vs):
+                got = True
+        if got != bool(want_fn(env)):
+            return False
+    return True
 
 
 def r178_raw_output(ctx, rule="R17.8"):
